@@ -29,7 +29,8 @@ CONSTANTS
   BugDropReplyOnClose,   \* a reply that arrives together with the service's hang-up is dropped, exit 1
   BugPanicNoChild,       \* --connect: the child watcher unwraps a child that does not exist
   BugAbortAfterUpgrade,  \* the upgraded session ends with an abort (descriptor closed twice)
-  BugStaleCacheAfterInfo \* a service-info query redirects the target address but leaves the cached interface name alone
+  BugStaleCacheAfterInfo, \* a service-info query redirects the target address but leaves the cached interface name alone
+  BugIgnoreServiceHangup  \* upgraded session: the bridge goes on waiting for the client after the service has hung up
 
 (* request kinds the client sends; svc: which service owns the interface ("A", "B") or "R" for service-info queries *)
 Kinds == {"ok", "stream", "oneway", "error", "closing", "upgrade", "getinfo"}
@@ -51,6 +52,8 @@ VARIABLES
   reqs,        \* what the client sends
   payload,     \* number of raw payload atoms the client sends after an upgrade request
   pipelined,   \* the client writes everything at once (the bridge reads ahead)
+  upEnd,       \* who ends an upgraded session: "client" (closes its side after the payload) or "service" (says goodbye and hangs up)
+  bye,         \* the service's goodbye reached the client (0 / 1)
   i,           \* requests consumed by the bridge
   pc,          \* "read" | "route" | "relay" | "raw" | "done"
   out,         \* replies forwarded to the client: [req, n] = n-th reply of request req
@@ -61,14 +64,14 @@ VARIABLES
   rawToClient, \* payload atoms (wrongly) written to the client
   exit         \* "running" | "ok" | "error" | "panic" | "abort"
 
-bvars == <<mode, reqs, payload, pipelined, i, pc, out, got, lastIface, address, rawToSvc, rawToClient, exit>>
+bvars == <<mode, reqs, payload, pipelined, upEnd, bye, i, pc, out, got, lastIface, address, rawToSvc, rawToClient, exit>>
 
 Services == {"A", "B", "R"}
 
 BInit ==
   /\ i = 0 /\ pc = "read" /\ out = <<>> /\ got = [s \in Services |-> <<>>]
   /\ lastIface = "none" /\ address = "none"
-  /\ rawToSvc = 0 /\ rawToClient = 0 /\ exit = "running"
+  /\ rawToSvc = 0 /\ rawToClient = 0 /\ exit = "running" /\ bye = 0
 
 Cur == reqs[i]
 
@@ -78,7 +81,7 @@ ReadReq ==
      THEN /\ i' = i + 1 /\ pc' = "route" /\ UNCHANGED exit
      ELSE \* the client closed its side: the bridge stops, reporting success
           /\ pc' = "done" /\ exit' = "ok" /\ UNCHANGED i
-  /\ UNCHANGED <<mode, reqs, payload, pipelined, out, got, lastIface, address, rawToSvc, rawToClient>>
+  /\ UNCHANGED <<mode, reqs, payload, pipelined, upEnd, bye, out, got, lastIface, address, rawToSvc, rawToClient>>
 
 \* route + connect + forward in one step (each request on a fresh connection to its target).  The target address is
 \* cached: it is looked up again only when the interface differs from the one of the previous request (a service-info
@@ -97,7 +100,7 @@ RouteForward ==
                   ELSE UNCHANGED <<address, lastIface>>
           /\ got' = [got EXCEPT ![address'] = Append(@, i)]
           /\ pc' = "relay" /\ UNCHANGED <<out, exit>>
-  /\ UNCHANGED <<mode, reqs, payload, pipelined, i, rawToSvc, rawToClient>>
+  /\ UNCHANGED <<mode, reqs, payload, pipelined, upEnd, bye, i, rawToSvc, rawToClient>>
 
 Relay ==
   /\ pc = "relay"
@@ -110,7 +113,7 @@ Relay ==
            THEN pc' = "done" /\ exit' = "error"
            ELSE IF ~wrong /\ Cur.k = "upgrade" THEN pc' = "raw" /\ UNCHANGED exit
            ELSE pc' = "read" /\ UNCHANGED exit
-  /\ UNCHANGED <<mode, reqs, payload, pipelined, i, got, lastIface, address, rawToSvc, rawToClient>>
+  /\ UNCHANGED <<mode, reqs, payload, pipelined, upEnd, bye, i, got, lastIface, address, rawToSvc, rawToClient>>
 
 \* upgraded: everything the client sends from now on belongs to the service, starting with what was read ahead
 Raw ==
@@ -118,9 +121,14 @@ Raw ==
   /\ IF pipelined /\ BugReadAheadToClient
      THEN rawToClient' = payload /\ rawToSvc' = 0
      ELSE rawToSvc' = payload /\ rawToClient' = 0
-  /\ pc' = "done"
-  /\ exit' = IF BugAbortAfterUpgrade THEN "abort" ELSE "ok"
-  /\ UNCHANGED <<mode, reqs, payload, pipelined, i, out, got, lastIface, address>>
+  /\ IF upEnd = "service"
+     THEN \* the service answers the payload with a goodbye and hangs up; the client is still there
+          /\ bye' = 1
+          /\ IF BugIgnoreServiceHangup THEN pc' = "stuck" /\ UNCHANGED exit
+             ELSE pc' = "done" /\ exit' = IF BugAbortAfterUpgrade THEN "abort" ELSE "ok"
+     ELSE /\ bye' = 0 /\ pc' = "done"
+          /\ exit' = IF BugAbortAfterUpgrade THEN "abort" ELSE "ok"
+  /\ UNCHANGED <<mode, reqs, payload, pipelined, upEnd, i, out, got, lastIface, address>>
 
 (* direct mode: a plain pipe to one service *)
 Direct ==
@@ -137,7 +145,7 @@ Direct ==
   /\ exit' = IF BugPanicNoChild THEN "panic" ELSE "ok"
   \* the payload only has somewhere to go if the connection survived up to the upgrade request
   /\ rawToSvc' = IF \E k \in 1..Len(reqs) : ServiceCloses(reqs[k]) THEN 0 ELSE payload
-  /\ UNCHANGED <<mode, reqs, payload, pipelined, rawToClient, lastIface, address>>
+  /\ UNCHANGED <<mode, reqs, payload, pipelined, upEnd, bye, rawToClient, lastIface, address>>
 
 BNext == (mode = "resolver" /\ (ReadReq \/ RouteForward \/ Relay \/ Raw)) \/ Direct
 BSpec == BInit /\ [][BNext]_bvars
@@ -165,6 +173,11 @@ SwitchesTargets ==
 UpgradeReached == \E j \in 1..Len(out) : reqs[out[j].req].k = "upgrade"
 UpgradePayloadToService ==
   (Done /\ UpgradeReached) => (rawToSvc = payload /\ rawToClient = 0)
+
+\* when the service ends an upgraded session the bridge stops too (it does not wait for the client), and what the service said
+\* before hanging up has reached the client
+StopsWhenServiceEnds == pc # "stuck"
+GoodbyeForwarded == (Done /\ UpgradeReached /\ upEnd = "service" /\ payload > 0) => bye = 1
 
 \* nothing went wrong on any socket: the bridge reports success
 ExitZero == Done => exit = "ok"
